@@ -115,12 +115,7 @@ def run_both(cases, timeout_ms=3000, model_mode="eng"):
         else:
             model[str(i)] = p if not p.startswith("PANIC") else "PANIC"   # compile error / panic: nothing for the engine model to do
     model.update(driver(dl))
-    # believe a HANG only after a retry alone with a long deadline
-    hangs = [i for i in range(len(cases)) if impl.get(str(i)) == "HANG"]
-    if hangs:
-        again = harness([cases[i].hline(i) for i in hangs], 15000, jobs=4)
-        for i in hangs:
-            impl[str(i)] = again.get(str(i), "HANG")
+    retry_hangs(cases, impl)
     return ([norm(impl.get(str(i))) for i in range(len(cases))],
             [norm(model.get(str(i))) for i in range(len(cases))], progs)
 
@@ -131,13 +126,20 @@ def run_full(cases, timeout_ms=3000):
     impl = harness(hl, timeout_ms)
     dl = [c.dline(i, "-", "fullnoopt" if c.mode == "noopt" else "full") for i, c in enumerate(cases)]
     model = driver(dl)
-    hangs = [i for i in range(len(cases)) if impl.get(str(i)) == "HANG"]
-    if hangs:
-        again = harness([cases[i].hline(i) for i in hangs], 15000, jobs=4)
-        for i in hangs:
-            impl[str(i)] = again.get(str(i), "HANG")
+    retry_hangs(cases, impl)
     return ([norm(impl.get(str(i))) for i in range(len(cases))],
             [norm(model.get(str(i))) for i in range(len(cases))])
+
+
+def retry_hangs(cases, impl):
+    """a HANG is believed only after a retry with a long deadline — for the first few; when very many requests
+    hang, the rest is believed as it is (the run must stay bounded)"""
+    hangs = [i for i in range(len(cases)) if impl.get(str(i)) == "HANG"]
+    if hangs:
+        some = hangs[:16]
+        again = harness([cases[i].hline(i) for i in some], 12000, jobs=8)
+        for i in some:
+            impl[str(i)] = again.get(str(i), "HANG")
 
 
 # ------------------------------------------------------------------------------------------------
